@@ -884,7 +884,10 @@ def run(ctx):
                 check_library(ctx, lib, d, emu_o, drv, r, thorough, stats, ok)
                 stats["libraries"] += 1
             except RuntimeError as e:
+                # a library of the admitted subset on which Shroud itself raises: a concrete failing input
                 ctx.tie_broken("lua-emit", "%s: %s" % (lib.name, e))
+                ctx.fail("wrap-raises:" + lib.name, "Shroud raises while wrapping a valid library for Lua: %s" % str(e)[:300],
+                         {"yaml": lib.yaml(), "header": lib.header()})
             if check_tables_ok is None:
                 check_tables_ok = check_tables(ctx)      # typemaps are registered once Shroud has run
     finally:
